@@ -73,6 +73,9 @@ class LeanStatus:
         bad = {e["decl"] for e in self.build_errors if e.get("decl")}
         if not self.build_ok and not bad:
             return 0
+        prop_files = {t.get("file") for t in self.theorems}
+        if any(e.get("file") not in prop_files for e in self.build_errors):
+            return 0   # a model or lemma file failed: no property theorem was re-checked
         n = 0
         for t in self.theorems:
             if t["name"] in bad or not t.get("ok", False):
